@@ -175,3 +175,77 @@ func pubqueueOffsets(ps []*Publication) string {
 	}
 	return "[" + strings.Join(l, " ") + "]"
 }
+
+// pubqueuerace (C38, E1): the medium's writer loop (Wait, then Remove until empty) against a
+// producer adding publications, on the real publicationQueue. A publication handed to an open
+// queue must reach the writer without any further traffic: at quiescence nothing is left in the
+// queue while the writer sleeps.
+func init() {
+	vsched.Register(&vsched.Harness{
+		Name: "pubqueuerace", Props: []string{"C38"}, Kind: "sched",
+		Doc: "publicationQueue: one consumer thread running the medium writer's loop (Wait; Remove until empty) and 1-2 producer threads adding 2-3 publications, optional Close at the end; every interleaving within the preemption bound (2 quick / 3 thorough); oracle at quiescence: every added publication was consumed, in per-producer order, and none is left in the queue while the consumer waits",
+		Variants: func(tier string) []vsched.Variant {
+			if tier == "thorough" {
+				return []vsched.Variant{{Name: "p1x3", Bound: 3, Shards: 4, BudgetS: 200}, {Name: "p2x2", Bound: 3, Shards: 8, BudgetS: 200}}
+			}
+			return []vsched.Variant{{Name: "p1x3", Bound: 2, Shards: 1, BudgetS: 100}, {Name: "p2x2", Bound: 2, Shards: 1, BudgetS: 100}}
+		},
+		Sched: func(v vsched.Variant) func() {
+			producers, each := 1, 3
+			if v.Name == "p2x2" {
+				producers, each = 2, 2
+			}
+			return func() {
+				q := newPublicationQueue(2)
+				var got []uint64
+				consumerDone := make(chan struct{})
+				go func() {
+					defer close(consumerDone)
+					for {
+						if !q.Wait() {
+							return
+						}
+						for {
+							it, ok := q.Remove()
+							if !ok {
+								break
+							}
+							vsched.Visible()
+							got = append(got, it.Publication.pub.Offset)
+						}
+					}
+				}()
+				done := make(chan struct{}, producers)
+				for p := 0; p < producers; p++ {
+					p := p
+					go func() {
+						for i := 0; i < each; i++ {
+							off := uint64(p*100 + i + 1)
+							q.Add(queuedPublication{Publication: queuedPub{pub: &Publication{Offset: off, Data: []byte("x")}}})
+						}
+						done <- struct{}{}
+					}()
+				}
+				for p := 0; p < producers; p++ {
+					<-done
+				}
+				vsched.WaitIdle()
+				vsched.Quiet(true)
+				left := q.Len()
+				vsched.Logf("%s: consumed %v, left in queue %d", v.Name, got, left)
+				if left != 0 || len(got) != producers*each {
+					vsched.Failf("pubqueue-stranded", "producers finished and the system is idle: %d of %d publications consumed (%v), %d left in the open queue while the writer waits", len(got), producers*each, got, left)
+				}
+				last := map[uint64]uint64{}
+				for _, off := range got {
+					if off <= last[off/100] {
+						vsched.Failf("pubqueue-race-order", "publications of one producer consumed out of order: %v", got)
+					}
+					last[off/100] = off
+				}
+				q.Close()
+				<-consumerDone
+			}
+		},
+	})
+}
